@@ -12,6 +12,7 @@ import (
 	"time"
 
 	corev1 "k8s.io/api/core/v1"
+	"k8s.io/apimachinery/pkg/api/meta"
 	metav1 "k8s.io/apimachinery/pkg/apis/meta/v1"
 	"k8s.io/apimachinery/pkg/runtime"
 	"k8s.io/apimachinery/pkg/types"
@@ -54,7 +55,7 @@ type jobctlWorld struct {
 	// monitor state
 	ttlDeleteAt    int64            // clock of the controller's Job delete in the current sync (0 = none)
 	cachedJob      *execution.Job   // the Job version the running sync read from the cache
-	resultEdited   bool             // the user set a kill timestamp or deleted the Job
+	resultEdited   bool             // the user set a kill timestamp on a finished Job, or deleted the Job
 	envelopeBroken bool             // pod-cache lag made a status-listed pod invisible to a sync (E-PodCacheFresh)
 	podsCreated    map[string]int64 // name -> creation clock (ns) by the controller
 	prevJob        *execution.Job   // previous authoritative version (monotonicity)
@@ -562,7 +563,7 @@ func (w *jobctlWorld) monitorCall(c sim.Call) {
 		if c.Result != "ok" {
 			return
 		}
-		// E-FreshJobOnCreate (known finding F19): a sync acting on a STALE Job (its own earlier
+		// E-NoStaleCopyOnCreate (known finding F19): a sync acting on a STALE Job (its own earlier
 		// status update not yet in the Job cache) re-creates a task name that the authoritative
 		// status already records, after the first Pod vanished.  Generated histories that walk into
 		// this are tagged out of envelope; the fixed replay f19 keeps the monitors on.
@@ -575,7 +576,19 @@ func (w *jobctlWorld) monitorCall(c sim.Call) {
 				}
 				return false
 			}
-			if recorded(j) && !recorded(w.cachedJob) {
+			// (b) an old copy of a Pod of that name is still around in the pod informer (cache or
+			// an undelivered watch event): a task that was created but never recorded (failed status
+			// write) vanished, and its name is used again (witness W-D of the history proofs)
+			staleCopy := false
+			if _, cached := w.ctx.Sim().Pods().CacheGet(&corev1.Pod{ObjectMeta: metav1.ObjectMeta{Namespace: "ns", Name: name}}); cached {
+				staleCopy = true
+			}
+			for _, ev := range w.api.Pending["pods"] {
+				if m, err := meta.Accessor(ev.Obj); err == nil && m.GetName() == name && ev.Obj != c.Obj {
+					staleCopy = true
+				}
+			}
+			if recorded(j) && !recorded(w.cachedJob) || staleCopy {
 				if !w.envelopeBroken {
 					w.c.Count("jc.envelope.stale-job-recreates-task")
 				}
@@ -1078,7 +1091,11 @@ func jobctlCase(c *Ctx, rng *rand.Rand) {
 				t := metav1.NewTime(time.Unix(w.clk.Now().Unix()+int64(rng.Intn(30)-5), 0))
 				w.api.Mutate("jobs", w.jobKey, func(o runtime.Object) { o.(*execution.Job).Spec.KillTimestamp = &t })
 				w.userEdited = true
-				w.resultEdited = true
+				// "unless the user edits it": only an edit of an already finished Job excuses a later
+				// change of its recorded result; a kill time set while the Job was still unfinished does not
+				if jj.Status.Condition.Finished != nil {
+					w.resultEdited = true
+				}
 				c.Emit(fmt.Sprintf("jc.kill %d", t.Unix()), w.state())
 				w.monitorJobVersion()
 			}
